@@ -146,6 +146,9 @@ def record_scale_trace(spec):
         w = np.kaiser(L + 1, 10.0)[:-1]
     elif wname == "hann":
         w = np.hanning(L) if L > 2 else np.ones(L)
+    elif wname == "gated":            # a Hann window with exact zeros at interior samples (gated / two-lobe windows): still a real window
+        w = np.hanning(L) if L > 2 else np.ones(L)
+        w[L // 3: L // 3 + max(1, L // 16)] = 0.0
     elif wname == "rect":
         w = np.ones(L)
     else:
@@ -236,7 +239,7 @@ def record_fres_trace(spec):
 def scale_specs(tier, seed):
     rnd = random.Random(1000 + seed)
     n = 160 if tier == "quick" else 1500
-    wins = ["kaiser", "hann", "rect", "flattop", "nuttall"]
+    wins = ["kaiser", "hann", "rect", "flattop", "nuttall", "gated"]
     specs = []
     # segment counts just above the NumPy kernels' internal block sizes (8192 / 16384 / 32768), not multiples of them,
     # and start indices beyond 2^17: block-wise reductions and index arithmetic must not depend on the block layout
